@@ -148,6 +148,8 @@ def check_mass(sc) -> Obligation:
             for nm, v in list(env.symbols.items()):
                 SR.assume(z3.And(SR.T(v) > 0, SR.T(v) < 1000))
             a = MM.build(m, V)
+            # one protein object, used the way a caller would: weighed, digested, weighed again; every peptide weighed twice
+            whole = mass(a, monoisotopic=sc["mono"])
             orig = DG.get_cleavage_sites
             DG.get_cleavage_sites = lambda sequence, enzyme_regex: iter(sc["cuts"])
             try:
@@ -157,11 +159,14 @@ def check_mass(sc) -> Obligation:
             if len(pieces) != len(sc["cuts"]) + 1:
                 return False
             total = 0
+            again = 0
             for p in pieces:
                 total = total + mass(p, monoisotopic=sc["mono"])
-            whole = mass(a, monoisotopic=sc["mono"])
+            for p in pieces:
+                again = again + mass(p, monoisotopic=sc["mono"])
+            whole2 = mass(a, monoisotopic=sc["mono"])
             water = env.fa("p", sc["mono"])
-        return SR.close(total, SR.T(whole) + SR.T(water) * len(sc["cuts"]), 1e-6)
+        return z3.And(SR.close(total, SR.T(whole) + SR.T(water) * len(sc["cuts"]), 1e-6), SR.close(whole2, whole, 1e-9), SR.close(again, total, 1e-9))
 
     def replay(model):
         from ..e2lib import native_call
@@ -175,12 +180,16 @@ def main(p):
     sc, model = p["sc"], p["model"]
     a = MM.build(c07._mm(sc), lambda name: float(model.get(name, 1.5)))
     DG.get_cleavage_sites = lambda sequence, enzyme_regex: iter(sc["cuts"])
+    text = a.serialize()
+    whole = pt.mass(a, monoisotopic=sc["mono"])
     pieces = list(DG.digest(a, "R", 0, False, return_type="annotation"))
     total = sum(pt.mass(x, monoisotopic=sc["mono"]) for x in pieces)
-    whole = pt.mass(a, monoisotopic=sc["mono"])
+    again = sum(pt.mass(x, monoisotopic=sc["mono"]) for x in pieces)
+    whole2 = pt.mass(a, monoisotopic=sc["mono"])
     water = (CC.MONOISOTOPIC_FRAGMENT_ADJUSTMENTS if sc["mono"] else CC.AVERAGE_FRAGMENT_ADJUSTMENTS)["p"]
     d = total - whole - water * len(sc["cuts"])
-    return {"violated": abs(d) > 1e-5, "detail": f"{a.serialize()!r} cut at {sc['cuts']}: pieces {[x.serialize() for x in pieces]} sum {total!r} vs protein {whole!r} + {len(sc['cuts'])} water (diff {d:+.6g})"}
+    return {"violated": abs(d) > 1e-5 or abs(whole2 - whole) > 1e-9 or abs(again - total) > 1e-9,
+            "detail": f"{text!r} cut at {sc['cuts']}: pieces {[x.serialize() for x in pieces]} sum {total!r} (weighed again: {again!r}) vs protein {whole!r} (after digesting: {whole2!r}) + {len(sc['cuts'])} water (diff {d:+.6g})"}
 """
         res = native_call(code, {"sc": sc, "model": model})
         return res["violated"], res["detail"], None
